@@ -59,7 +59,9 @@ def gen_dep_fn_scenario(rng: random.Random, steer=None):
     # (the same values / the same condition with the same parameters): the two are different types
     rebound = None
     if rng.random() < 0.3:
-        cands = [(d, p) for d in defs for p in d["params"] if p["ty"][0] in ("lit", "fdep") and p["kind"] != "ko" and p["name"] < npos]
+        # (Literals and user conditions: the built-in string / dict checks are written for their own bound only)
+        cands = [(d, p) for d in defs for p in d["params"]
+                 if (p["ty"][0] == "lit" or (p["ty"][0] == "fdep" and p["ty"][1] < 100)) and p["kind"] != "ko" and p["name"] < npos]
         if cands:
             d0, p0 = rng.choice(cands)
             supers = [c for c in range(w.n) if w.tables_cache["sub"][focus[p0["name"]]][c]]
